@@ -62,6 +62,7 @@ type nilEngine struct {
 	all []*ssa.Function // functions analysed for summaries (scope + proto getters they call)
 
 	paramNN   map[*ssa.Parameter]bool
+	paramDyn  map[*ssa.Parameter]bool // interface parameter whose dynamic value is a non-nil pointer at every call site
 	paramCell map[string]bool // "<fn>|<param>.<field>" -> the cell is non-nil at entry (all call sites establish it)
 	cellWant  map[string]bool // candidate param cells
 	retNN     map[*ssa.Function][]bool
@@ -81,7 +82,14 @@ type nilEngine struct {
 	final  bool
 	nObl   int
 	byCtr  map[*ssa.Function]string // functions whose internal obligations are discharged by a contract
-	siteNN map[ssa.Instruction]fstate
+	// siteOK: for every Store / MapUpdate of a nillable value in an analysed function: the stored value was
+	// non-nil at that site in the previous round (optimistic fixpoint, like the summaries)
+	siteOK  map[ssa.Instruction]bool
+	// siteKeys: for every MapUpdate m2[k] = v, the canonical names of the maps M for which "k is a key of M"
+	// was known at that site (used for the key-subset lemma)
+	siteKeys map[ssa.Instruction]map[string]bool
+	assumed map[string]string // reviewed assumptions: "<fn short>|<descr(value)>" -> reason
+	used    map[string]int
 }
 
 func vid(v ssa.Value) string {
@@ -93,10 +101,10 @@ func vid(v ssa.Value) string {
 
 func newNilEngine(c *Ctx, scope []*ssa.Function, roots []*ssa.Function) *nilEngine {
 	e := &nilEngine{c: c, p: c.P, fns: scope,
-		paramNN: map[*ssa.Parameter]bool{}, paramCell: map[string]bool{}, cellWant: map[string]bool{},
+		paramNN: map[*ssa.Parameter]bool{}, paramDyn: map[*ssa.Parameter]bool{}, paramCell: map[string]bool{}, cellWant: map[string]bool{},
 		retNN: map[*ssa.Function][]bool{}, retPair: map[*ssa.Function][]int{}, predNN: map[*ssa.Function][]int{},
 		entryNN: map[*ssa.Parameter]bool{}, roots: map[*ssa.Function]bool{}, mapValsNN: map[ssa.Value]int{}, structInv: map[string]int{},
-		byCtr: map[*ssa.Function]string{}}
+		byCtr: map[*ssa.Function]string{}, siteOK: map[ssa.Instruction]bool{}, siteKeys: map[ssa.Instruction]map[string]bool{}, assumed: map[string]string{}, used: map[string]int{}}
 	e.mods = c.P.modSets()
 	e.extTypes = c.P.extensionTypes()
 	for _, r := range roots {
@@ -111,10 +119,9 @@ func newNilEngine(c *Ctx, scope []*ssa.Function, roots []*ssa.Function) *nilEngi
 		}
 		seen[f] = true
 		e.all = append(e.all, f)
-		if n := c.P.CG.Nodes[f]; n != nil {
-			for _, ed := range n.Out {
-				add(ed.Callee.Func)
-			}
+		c.P.buildEdges()
+		for _, ed := range c.P.outEdges[f] {
+			add(ed.Callee)
 		}
 		for _, a := range f.AnonFuncs {
 			add(a)
@@ -127,8 +134,14 @@ func newNilEngine(c *Ctx, scope []*ssa.Function, roots []*ssa.Function) *nilEngi
 	for _, f := range e.all {
 		for _, b := range f.Blocks {
 			for _, in := range b.Instrs {
-				if mu, ok := in.(*ssa.MapUpdate); ok {
-					e.mapUpd = append(e.mapUpd, mu)
+				switch x := in.(type) {
+				case *ssa.MapUpdate:
+					e.mapUpd = append(e.mapUpd, x)
+					e.siteOK[x] = true
+				case *ssa.Store:
+					if isNillable(x.Val.Type()) {
+						e.siteOK[x] = true
+					}
 				}
 			}
 		}
@@ -144,6 +157,9 @@ func (e *nilEngine) solve() {
 		for _, prm := range f.Params {
 			if isNillable(prm.Type()) {
 				e.paramNN[prm] = true
+			}
+			if _, isIface := prm.Type().Underlying().(*types.Interface); isIface {
+				e.paramDyn[prm] = !e.roots[f]
 			}
 		}
 		n := f.Signature.Results().Len()
@@ -177,7 +193,7 @@ func (e *nilEngine) solve() {
 		for _, b := range f.Blocks {
 			for _, in := range b.Instrs {
 				if fa, ok := in.(*ssa.FieldAddr); ok {
-					if prm, ok := fa.X.(*ssa.Parameter); ok && isNillable(deref(fa.Type())) {
+					if prm := paramBehind(fa.X); prm != nil && isNillable(deref(fa.Type())) {
 						k := f.String() + "|" + prm.Name() + "." + fieldName(prm.Type(), fa.Field)
 						e.cellWant[k] = true
 						e.paramCell[k] = true
@@ -202,10 +218,9 @@ func (e *nilEngine) solve() {
 	// functions without any call site inside the analysed set and that are not roots: parameters unknown
 	called := map[*ssa.Function]bool{}
 	for _, f := range e.all {
-		if n := e.p.CG.Nodes[f]; n != nil {
-			for _, ed := range n.Out {
-				called[ed.Callee.Func] = true
-			}
+		e.p.buildEdges()
+		for _, ed := range e.p.outEdges[f] {
+			called[ed.Callee] = true
 		}
 	}
 	for _, f := range e.all {
@@ -227,6 +242,10 @@ func (e *nilEngine) solve() {
 		for k, v := range e.paramNN {
 			newParam[k] = v
 		}
+		newDyn := map[*ssa.Parameter]bool{}
+		for k, v := range e.paramDyn {
+			newDyn[k] = v
+		}
 		newCell := map[string]bool{}
 		for k, v := range e.paramCell {
 			newCell[k] = v
@@ -234,6 +253,9 @@ func (e *nilEngine) solve() {
 		newRet := map[*ssa.Function][]bool{}
 		newPair := map[*ssa.Function][]int{}
 		newPred := map[*ssa.Function][]int{}
+		newSite := map[ssa.Instruction]bool{}
+		e.mapValsNN = map[ssa.Value]int{}
+		e.structInv = map[string]int{}
 		for _, f := range e.all {
 			newRet[f] = append([]bool{}, e.retNN[f]...)
 			newPair[f] = append([]int{}, e.retPair[f]...)
@@ -242,6 +264,20 @@ func (e *nilEngine) solve() {
 		for _, f := range e.all {
 			e.analyse(f, func(in ssa.Instruction, st fstate) {
 				switch x := in.(type) {
+				case *ssa.MapUpdate:
+					newSite[x] = e.nonNil(x.Value, st, in, 0)
+					ks := map[string]bool{}
+					suffix := "|" + canon(x.Key)
+					for k := range st {
+						if strings.HasPrefix(k, "KEY:") && strings.HasSuffix(k, suffix) {
+							ks[strings.TrimSuffix(strings.TrimPrefix(k, "KEY:"), suffix)] = true
+						}
+					}
+					e.siteKeys[x] = ks
+				case *ssa.Store:
+					if isNillable(x.Val.Type()) {
+						newSite[x] = e.nonNil(x.Val, st, in, 0)
+					}
 				case ssa.CallInstruction:
 					args := allArgs(x)
 					for _, cal := range e.p.Callees(x) {
@@ -259,6 +295,9 @@ func (e *nilEngine) solve() {
 								if !e.nonNil(a, st, in, 0) {
 									newParam[prm] = false
 								}
+							}
+							if newDyn[prm] && !e.roots[cal] && !e.dynNonNil(a, st, in, 0) {
+								newDyn[prm] = false
 							}
 							// parameter cells
 							if !e.roots[cal] {
@@ -335,12 +374,51 @@ func (e *nilEngine) solve() {
 				changed = true
 			}
 		}
+		for k, v := range newSite {
+			if e.siteOK[k] != v {
+				changed = true
+			}
+		}
+		for k, v := range newDyn {
+			if e.paramDyn[k] != v {
+				changed = true
+			}
+		}
+		e.paramDyn = newDyn
+		e.siteOK = newSite
 		e.paramNN, e.paramCell, e.retNN, e.retPair, e.predNN = newParam, newCell, newRet, newPair, newPred
 		if !changed {
 			e.c.Stats["E1 summary rounds"] = round + 1
 			break
 		}
 	}
+}
+
+// paramBehind: v is a parameter, or the load of a local cell that only ever holds that parameter
+// (captured parameters are spilled to a cell).
+func paramBehind(v ssa.Value) *ssa.Parameter {
+	if prm, ok := v.(*ssa.Parameter); ok {
+		return prm
+	}
+	ld, ok := v.(*ssa.UnOp)
+	if !ok || ld.Op != token.MUL {
+		return nil
+	}
+	cell, ok := ld.X.(*ssa.Alloc)
+	if !ok {
+		return nil
+	}
+	var prm *ssa.Parameter
+	for _, r := range *cell.Referrers() {
+		if st, ok := r.(*ssa.Store); ok && st.Addr == ssa.Value(cell) {
+			pp, isP := st.Val.(*ssa.Parameter)
+			if !isP || (prm != nil && prm != pp) {
+				return nil
+			}
+			prm = pp
+		}
+	}
+	return prm
 }
 
 // trueImpliesNonNil: whenever boolean value rv is true, param is non-nil.
@@ -571,7 +649,8 @@ func (e *nilEngine) refine(cond ssa.Value, val bool, st fstate, at ssa.Instructi
 			case *ssa.Lookup:
 				st["KEY:"+canon(t.X)+"|"+canon(t.Index)] = append(memFields(t.Index), "map:"+t.X.Type().Underlying().String())
 			case *ssa.TypeAssert:
-				// comma-ok assertion succeeded: the asserted value is non-nil only for interface-to-interface; for pointers it may be a typed nil
+				// comma-ok assertion succeeded: the result is the interface's dynamic value
+				st["TAOK:"+vid(t)] = nil
 			}
 		}
 	case *ssa.Call:
@@ -585,10 +664,8 @@ func (e *nilEngine) refine(cond ssa.Value, val bool, st fstate, at ssa.Instructi
 				m = mi.X
 			}
 			e.assumeNonNil(m, st)
-			if ld, ok := x.Call.Args[1].(*ssa.UnOp); ok {
-				if g, ok := ld.X.(*ssa.Global); ok {
-					st["EXT:"+canon(m)+"|"+g.Name()] = memFields(m)
-				}
+			if g := extGlobal(x.Call.Args[1]); g != nil {
+				st["EXT:"+canon(m)+"|"+g.Name()] = memFields(m)
 			}
 			return
 		}
@@ -694,7 +771,7 @@ func (e *nilEngine) transfer(in ssa.Instruction, st fstate) {
 		}
 		e.killClass(st, cls)
 		// whole-struct store: kills facts on all fields of the struct type; then copies the source's cell facts
-		if sst := structOf(x.Val.Type()); sst != nil {
+		if sst, isStruct := x.Val.Type().Underlying().(*types.Struct); isStruct {
 			tn := typeName(x.Val.Type())
 			for i := 0; i < sst.NumFields(); i++ {
 				e.killClass(st, tn+"."+sst.Field(i).Name())
@@ -712,6 +789,16 @@ func (e *nilEngine) transfer(in ssa.Instruction, st fstate) {
 		if isNillable(x.Val.Type()) && e.nonNil(x.Val, st, in, 0) {
 			deps := append(memFields(x.Addr), cls)
 			st["NNC:"+canon(x.Addr)] = deps
+		}
+		// storing a pointer into a cell: what is known about the pointee's cells is known through the cell too
+		if _, isPtr := x.Val.Type().Underlying().(*types.Pointer); isPtr {
+			src := canon(x.Val)
+			dst := "*(" + canon(x.Addr) + ")"
+			for k, deps := range st {
+				if strings.HasPrefix(k, "NNC:"+src+".") {
+					st["NNC:"+dst+"."+strings.TrimPrefix(k, "NNC:"+src+".")] = append(append([]string{}, deps...), cls)
+				}
+			}
 		}
 	case *ssa.MapUpdate:
 		e.killClass(st, "map:"+x.Map.Type().Underlying().String()+"!del")
@@ -776,6 +863,13 @@ func (e *nilEngine) nonNil(v ssa.Value, st fstate, at ssa.Instruction, d int) bo
 	if _, ok := st["NN:"+vid(v)]; ok {
 		return true
 	}
+	if len(e.assumed) > 0 && v.Parent() != nil {
+		k := shortName(v.Parent()) + "|" + descr(v)
+		if _, ok := e.assumed[k]; ok {
+			e.used[k]++
+			return true
+		}
+	}
 	switch x := v.(type) {
 	case *ssa.Alloc, *ssa.MakeMap, *ssa.MakeSlice, *ssa.MakeChan, *ssa.MakeClosure, *ssa.FieldAddr, *ssa.IndexAddr, *ssa.Function, *ssa.Global:
 		return true
@@ -823,7 +917,7 @@ func (e *nilEngine) nonNil(v ssa.Value, st fstate, at ssa.Instruction, d int) bo
 			if x.Index != 0 {
 				return true
 			}
-			if _, ok := st["KEY:"+canon(t.X)+"|"+canon(t.Index)]; ok {
+			if e.keyIn(t.X, t.Index, st) {
 				return e.mapValuesNonNil(t.X)
 			}
 			return false
@@ -836,6 +930,16 @@ func (e *nilEngine) nonNil(v ssa.Value, st fstate, at ssa.Instruction, d int) bo
 			}
 			return false
 		case *ssa.TypeAssert:
+			if x.Index != 0 {
+				return true
+			}
+			// L-ext, with or without looking at ok
+			if call, ok := t.X.(*ssa.Call); ok && calleeName(call) == "google.golang.org/protobuf/proto.GetExtension" {
+				return e.extGuarded(call, t.AssertedType, st)
+			}
+			if _, ok := st["TAOK:"+vid(t)]; ok {
+				return e.dynNonNil(t.X, st, at, d+1)
+			}
 			return false
 		}
 		return false
@@ -843,7 +947,7 @@ func (e *nilEngine) nonNil(v ssa.Value, st fstate, at ssa.Instruction, d int) bo
 		if _, isMap := x.X.Type().Underlying().(*types.Map); !isMap {
 			return true
 		}
-		if _, ok := st["KEY:"+canon(x.X)+"|"+canon(x.Index)]; ok {
+		if e.keyIn(x.X, x.Index, st) {
 			return e.mapValuesNonNil(x.X)
 		}
 		return false
@@ -857,24 +961,202 @@ func (e *nilEngine) nonNil(v ssa.Value, st fstate, at ssa.Instruction, d int) bo
 	return false
 }
 
+// keyIn: k is a key of map m at this point: a KEY fact, or the key-provenance lemma: k is a key obtained by
+// ranging over m itself or over a map/slice that only ever receives keys of m, and m never loses keys.
+func (e *nilEngine) keyIn(m, k ssa.Value, st fstate) bool {
+	if _, ok := st["KEY:"+canon(m)+"|"+canon(k)]; ok {
+		return true
+	}
+	fn := k.Parent()
+	if fn == nil || hasDelete(fn, m) {
+		return false
+	}
+	if _, isMake := m.(*ssa.MakeMap); !isMake {
+		return false // the lemma needs the map's identity: a map created in this function
+	}
+	return e.keyFrom(m, k, 0)
+}
+
+func hasDelete(fn *ssa.Function, m ssa.Value) bool {
+	for _, b := range fn.Blocks {
+		for _, in := range b.Instrs {
+			if call, ok := in.(*ssa.Call); ok && isBuiltin(call, "delete") {
+				if types.Identical(call.Call.Args[0].Type(), m.Type()) {
+					return true
+				}
+			}
+		}
+	}
+	// closures and callees receiving the map could delete as well: the map must not escape as an argument
+	if refs := m.Referrers(); refs != nil {
+		for _, r := range *refs {
+			switch x := r.(type) {
+			case *ssa.Lookup, *ssa.MapUpdate, *ssa.Range, *ssa.DebugRef:
+			case *ssa.Call:
+				if !isBuiltin(x, "len") {
+					return true
+				}
+			default:
+				return true
+			}
+		}
+	}
+	return false
+}
+
+// keyFrom: value k (in the function that created map m) is always one of m's keys.
+func (e *nilEngine) keyFrom(m, k ssa.Value, d int) bool {
+	if d > 6 {
+		return false
+	}
+	k = stripConv(k)
+	// range key
+	if ex, ok := k.(*ssa.Extract); ok && ex.Index == 1 {
+		if nx, ok := ex.Tuple.(*ssa.Next); ok {
+			if rng, ok := nx.Iter.(*ssa.Range); ok {
+				if rng.X == m {
+					return true
+				}
+				// ranging over another map a: every key ever put into a was a key of m when it was put
+				a := rng.X
+				if _, isMap := a.Type().Underlying().(*types.Map); !isMap {
+					return false
+				}
+				org := e.p.valueOrigins(a)
+				if org.unknown() {
+					return false
+				}
+				n := 0
+				for _, mu := range e.mapUpd {
+					if !types.Identical(mu.Map.Type(), a.Type()) {
+						continue
+					}
+					o2 := e.p.valueOrigins(mu.Map)
+					if !o2.unknown() && !o2.intersects(org) {
+						continue
+					}
+					n++
+					if mu.Parent() != m.Parent() || !e.siteKeys[mu][canon(m)] {
+						return false
+					}
+				}
+				return true
+			}
+		}
+	}
+	// element of a slice that only ever receives keys of m
+	if ld, ok := k.(*ssa.UnOp); ok && ld.Op == token.MUL {
+		if ia, ok := ld.X.(*ssa.IndexAddr); ok {
+			return e.sliceOfKeys(m, ia.X, map[ssa.Value]bool{}, 0)
+		}
+	}
+	return false
+}
+
+func (e *nilEngine) sliceOfKeys(m, s ssa.Value, seen map[ssa.Value]bool, d int) bool {
+	if seen[s] {
+		return true
+	}
+	seen[s] = true
+	if d > 12 {
+		return false
+	}
+	switch x := s.(type) {
+	case *ssa.Const:
+		return x.Value == nil
+	case *ssa.Phi:
+		for _, ed := range x.Edges {
+			if !e.sliceOfKeys(m, ed, seen, d+1) {
+				return false
+			}
+		}
+		return true
+	case *ssa.MakeSlice:
+		k, ok := constInt(x.Len)
+		return ok && k == 0
+	case *ssa.Call:
+		if isBuiltin(x, "append") {
+			if !e.sliceOfKeys(m, x.Call.Args[0], seen, d+1) {
+				return false
+			}
+			// appended elements: the variadic array's stores
+			sl, ok := x.Call.Args[1].(*ssa.Slice)
+			if !ok {
+				return false
+			}
+			arr, ok := sl.X.(*ssa.Alloc)
+			if !ok {
+				return false
+			}
+			for _, r := range *arr.Referrers() {
+				if ia, ok := r.(*ssa.IndexAddr); ok {
+					for _, r2 := range *ia.Referrers() {
+						if st, ok := r2.(*ssa.Store); ok && !e.keyFrom(m, st.Val, d+1) {
+							return false
+						}
+					}
+				}
+			}
+			return true
+		}
+	}
+	return false
+}
+
+// extGlobal: the E_<Name> extension descriptor variable an argument denotes.
+func extGlobal(v ssa.Value) *ssa.Global {
+	if mi, ok := v.(*ssa.MakeInterface); ok {
+		v = mi.X
+	}
+	ld, ok := v.(*ssa.UnOp)
+	if !ok || ld.Op != token.MUL {
+		return nil
+	}
+	g, _ := ld.X.(*ssa.Global)
+	return g
+}
+
+// dynNonNil: the dynamic value stored in the interface value v is a non-nil pointer.
+func (e *nilEngine) dynNonNil(v ssa.Value, st fstate, at ssa.Instruction, d int) bool {
+	if d > 10 {
+		return false
+	}
+	switch x := v.(type) {
+	case *ssa.MakeInterface:
+		return e.nonNil(x.X, st, at, d+1)
+	case *ssa.Parameter:
+		return e.paramDyn[x]
+	case *ssa.ChangeInterface:
+		return e.dynNonNil(x.X, st, at, d+1)
+	case *ssa.Phi:
+		for _, ed := range x.Edges {
+			if !e.dynNonNil(ed, st, at, d+1) {
+				return false
+			}
+		}
+		return true
+	}
+	return false
+}
+
 func (e *nilEngine) extGuarded(call *ssa.Call, asserted types.Type, st fstate) bool {
 	m := call.Call.Args[0]
 	if mi, ok := m.(*ssa.MakeInterface); ok {
 		m = mi.X
 	}
-	ld, ok := call.Call.Args[1].(*ssa.UnOp)
-	if !ok {
-		return false
-	}
-	g, ok := ld.X.(*ssa.Global)
-	if !ok {
+	g := extGlobal(call.Call.Args[1])
+	if g == nil {
 		return false
 	}
 	if _, ok := st["EXT:"+canon(m)+"|"+g.Name()]; !ok {
+		debugf("extGuarded: no fact EXT:%s|%s; ext types %v", canon(m), g.Name(), e.extTypes)
 		return false
 	}
 	want := e.extTypes[g.Name()]
 	got := "*" + namedOf(asserted).Obj().Name()
+	if want != got {
+		debugf("extGuarded: %s declared %q, asserted %q (all: %v)", g.Name(), want, got, e.extTypes)
+	}
 	return want == got
 }
 
@@ -893,6 +1175,9 @@ func (e *nilEngine) loadNonNil(ld *ssa.UnOp, st fstate, at ssa.Instruction, d in
 		if e.structFieldInvariant(a.X.Type(), a.Field) {
 			return true
 		}
+		if e.literalTableField(a) {
+			return true
+		}
 	case *ssa.IndexAddr:
 		// L-rep: elements of repeated proto message fields
 		if e.isProtoRepeated(a.X) {
@@ -902,6 +1187,11 @@ func (e *nilEngine) loadNonNil(ld *ssa.UnOp, st fstate, at ssa.Instruction, d in
 		if e.sliceElemsNonNil(a.X, 0) {
 			return true
 		}
+		// elements of slices handed out by libraries (os.ReadDir entries, zip.Reader.File): assumed non-nil (DESIGN 2.5)
+		if externalSlice(a.X) {
+			return true
+		}
+		// range variable copied from a composite-literal table all of whose rows set the field: handled in FieldAddr case
 	case *ssa.Alloc:
 		return e.cellAlwaysNonNil(a, ld, d)
 	case *ssa.FreeVar:
@@ -936,6 +1226,92 @@ func (e *nilEngine) isProtoRepeated(slice ssa.Value) bool {
 		return len(x.Edges) > 0
 	}
 	return false
+}
+
+// externalSlice: the slice value comes straight from a library: a call result or a field of a library struct.
+func externalSlice(v ssa.Value) bool {
+	switch x := v.(type) {
+	case *ssa.Extract:
+		if call, ok := x.Tuple.(*ssa.Call); ok {
+			if cal := call.Call.StaticCallee(); cal != nil && !strings.HasPrefix(cal.String(), modPath) && !strings.Contains(cal.String(), modPath) {
+				return true
+			}
+		}
+	case *ssa.Call:
+		if cal := x.Call.StaticCallee(); cal != nil && !strings.Contains(cal.String(), modPath) {
+			return true
+		}
+	case *ssa.UnOp:
+		if fa, ok := x.X.(*ssa.FieldAddr); ok && x.Op == token.MUL {
+			if n := namedOf(fa.X.Type()); n != nil && n.Obj().Pkg() != nil && !strings.HasPrefix(n.Obj().Pkg().Path(), modPath) {
+				return true
+			}
+		}
+	}
+	return false
+}
+
+// literalTableField: addr = &rangevar.f where rangevar is only ever assigned copies of the elements of a
+// composite-literal slice, and every element of the literal sets field f to a non-nil value.
+func (e *nilEngine) literalTableField(fa *ssa.FieldAddr) bool {
+	cell, ok := fa.X.(*ssa.Alloc)
+	if !ok {
+		return false
+	}
+	var lit *ssa.Alloc
+	for _, r := range *cell.Referrers() {
+		st, ok := r.(*ssa.Store)
+		if !ok || st.Addr != ssa.Value(cell) {
+			continue
+		}
+		ld, ok := st.Val.(*ssa.UnOp)
+		if !ok {
+			return false
+		}
+		ia, ok := ld.X.(*ssa.IndexAddr)
+		if !ok {
+			return false
+		}
+		sl, ok := ia.X.(*ssa.Slice)
+		if !ok {
+			return false
+		}
+		arr, ok := sl.X.(*ssa.Alloc)
+		if !ok || (lit != nil && lit != arr) {
+			return false
+		}
+		lit = arr
+	}
+	if lit == nil {
+		return false
+	}
+	at, ok := deref(lit.Type()).Underlying().(*types.Array)
+	if !ok {
+		return false
+	}
+	set := map[int64]bool{}
+	for _, r := range *lit.Referrers() {
+		ia, ok := r.(*ssa.IndexAddr)
+		if !ok {
+			continue
+		}
+		k, isC := constInt(ia.Index)
+		if !isC {
+			continue
+		}
+		for _, r2 := range *ia.Referrers() {
+			f2, ok := r2.(*ssa.FieldAddr)
+			if !ok || f2.Field != fa.Field {
+				continue
+			}
+			for _, r3 := range *f2.Referrers() {
+				if st, ok := r3.(*ssa.Store); ok && st.Addr == ssa.Value(f2) && e.nonNilAtStore(st) {
+					set[k] = true
+				}
+			}
+		}
+	}
+	return int64(len(set)) == at.Len() && at.Len() > 0
 }
 
 // sliceElemsNonNil: the slice is built locally by appends of non-nil elements only.
@@ -1021,38 +1397,13 @@ func (e *nilEngine) sliceElemsNonNil(v ssa.Value, d int) bool {
 	return rec(v, 0)
 }
 
-// nonNilAtStore: the stored value is non-nil at the store's program point (uses the dataflow result of its function).
+// nonNilAtStore: the stored value was non-nil at the store's program point (result of the previous
+// summary round; stores in functions outside the analysed set are unknown).
 func (e *nilEngine) nonNilAtStore(st *ssa.Store) bool {
 	if !isNillable(st.Val.Type()) {
 		return true
 	}
-	state := e.stateBefore(st)
-	if state == nil {
-		return false
-	}
-	return e.nonNil(st.Val, state, st, 1)
-}
-
-// stateBefore recomputes the fact state just before an instruction (possibly in another function).
-func (e *nilEngine) stateBefore(at ssa.Instruction) fstate {
-	f := at.Parent()
-	saveIn, saveCur := e.in, e.cur
-	var res fstate
-	if f != e.cur || e.in == nil {
-		e.analyse(f, nil)
-	}
-	if st, ok := e.in[at.Block()]; ok {
-		st = st.clone()
-		for _, ins := range at.Block().Instrs {
-			if ins == at {
-				res = st
-				break
-			}
-			e.transfer(ins, st)
-		}
-	}
-	e.in, e.cur = saveIn, saveCur
-	return res
+	return e.siteOK[st]
 }
 
 // cellAlwaysNonNil: a local variable cell (not lifted to a register): every store into it stores a
@@ -1284,6 +1635,7 @@ func (e *nilEngine) mapValuesNonNil(m ssa.Value) bool {
 	org := e.p.valueOrigins(m)
 	res := true
 	if org.unknown() {
+		debugf("mapValuesNonNil(%s in %s): unknown origin", m.Name(), m.Parent())
 		res = false
 	}
 	n := 0
@@ -1296,8 +1648,8 @@ func (e *nilEngine) mapValuesNonNil(m ssa.Value) bool {
 			continue
 		}
 		n++
-		st := e.stateBefore(mu)
-		if st == nil || !e.nonNil(mu.Value, st, mu, 1) {
+		if !e.siteOK[mu] {
+			debugf("mapValuesNonNil(%s in %s): update %s in %s stores maybe-nil", m.Name(), m.Parent(), mu, mu.Parent())
 			res = false
 		}
 	}
@@ -1394,7 +1746,28 @@ func (e *nilEngine) structFieldInvariant(t types.Type, idx int) bool {
 						}
 						continue
 					}
-					// array / struct containing T by value: zero Ts exist
+					// array containing T by value: fine when every element is assigned (variadic / literal arrays)
+					if at, isArr := et.Underlying().(*types.Array); isArr {
+						filled := map[int64]bool{}
+						for _, r := range *x.Referrers() {
+							if ia, isIA := r.(*ssa.IndexAddr); isIA {
+								if k, isC := constInt(ia.Index); isC {
+									for _, r2 := range *ia.Referrers() {
+										if _, isSt := r2.(*ssa.Store); isSt {
+											filled[k] = true
+										}
+										if _, isFA := r2.(*ssa.FieldAddr); isFA {
+											filled[k] = true // literal element built in place: its own fields are checked as stores
+										}
+									}
+								}
+							}
+						}
+						if int64(len(filled)) == at.Len() {
+							continue
+						}
+					}
+					// struct or partially filled array containing T by value: zero Ts exist
 					ok = false
 				case *ssa.MakeSlice:
 					if sl, isSl := x.Type().Underlying().(*types.Slice); isSl && containsT(sl.Elem()) {
